@@ -15,8 +15,8 @@
 (***************************************************************************)
 EXTENDS Token
 
-VARIABLES l, pre, obs, drift, driftAt
-tvars == <<st, ev, gh, hist, l, pre, obs, drift, driftAt>>
+VARIABLES l, pre, ghPre, obs, drift, driftAt
+tvars == <<st, ev, gh, hist, l, pre, ghPre, obs, drift, driftAt>>
 
 Trace == ndJsonDeserialize(IOEnv.TRACE_FILE)
 
@@ -32,7 +32,8 @@ TraceInit ==
   /\ Trace[1].ev.name = "Init"
   /\ st = FromLog(Trace[1].st) /\ pre = FromLog(Trace[1].st)
   /\ obs = ObsOf(Trace[1].st)
-  /\ ev = Trace[1].ev /\ gh = GhostInit(FromLog(Trace[1].st)) /\ hist = <<>>
+  /\ ev = Trace[1].ev /\ gh = GhostInit(FromLog(Trace[1].st)) /\ ghPre = GhostInit(FromLog(Trace[1].st))
+  /\ hist = <<>>
   /\ l = 2 /\ drift = 0 /\ driftAt = 0
 
 Predicted(s, e) ==
@@ -47,9 +48,9 @@ TraceNext ==
          t == FromLog(Trace[l].st)
      IN /\ ev' = e /\ st' = t /\ obs' = ObsOf(Trace[l].st)
         /\ IF e.name = "Init"
-           THEN /\ gh' = GhostInit(t) /\ pre' = t
+           THEN /\ gh' = GhostInit(t) /\ ghPre' = GhostInit(t) /\ pre' = t
                 /\ UNCHANGED <<drift, driftAt>>
-           ELSE /\ gh' = GhostStep(gh, st, e, t) /\ pre' = st
+           ELSE /\ gh' = GhostStep(gh, st, e, t) /\ ghPre' = gh /\ pre' = st
                 /\ LET d == Predicted(st, e) # Observed(e, t) IN
                    /\ drift' = drift + (IF d THEN 1 ELSE 0)
                    /\ driftAt' = IF d /\ driftAt = 0 THEN l ELSE driftAt
@@ -100,6 +101,16 @@ Clauses ==
    C10_Dust |-> C10_Dust(pre, ev, st),
    C10_SwapSettle |-> U({"SwapFee"}) /\ C10_SwapSettle(pre, ev, st),
    C10_ScaleExact |-> Scale_Exact,
+   \* history twins: judged by the accepted messages (and the ERC20 ledger), not by the module's records
+   C09_IssueFresh |-> C09_IssueFresh(ghPre.h, ev),
+   C09_AuthorityH |-> C09_AuthorityH(ghPre.h, ev),
+   C09_CapH |-> C09_CapH(pre, ev, st, ghPre.h, gh.h),
+   C09_BurnedH |-> C09_BurnedH(st, gh.h),
+   C09_FeeH |-> U({"Issue", "Mint"}) /\ C09_FeeH(pre, ev, st, ghPre.h),
+   C10_ToERC20H |-> U({"ToERC20"}) /\ C10_ToERC20H(pre, ev, st, ghPre.h),
+   C10_FromERC20H |-> U({"FromERC20"}) /\ C10_FromERC20H(pre, ev, st, ghPre.h),
+   C10_SumConstH |-> C10_SumConstH(pre, ev, st, ghPre.h),
+   X09_RecordsAsHistory |-> X09_RecordsAsHistory(st, gh.h),
    \* diagnostics beyond the listed properties
    X09_SupplyLedger |-> X09_SupplyLedger(st, gh),
    X09_FeeQuote |-> X09_FeeQuote(pre, ev),
